@@ -189,8 +189,9 @@ func (p *Pos) AttackersOf(sq int, byWhite bool) []int {
 	return ret
 }
 
-// Attacked reports whether sq is attacked by any piece of the given colour.
-func (p *Pos) Attacked(sq int, byWhite bool) bool {
+// AttackedSlow reports whether sq is attacked by any piece of the given colour, by asking
+// every piece. Kept as the definition; Attacked is cross-checked against it in the self-test.
+func (p *Pos) AttackedSlow(sq int, byWhite bool) bool {
 	for from := 0; from < 64; from++ {
 		pc := p.Sq[from]
 		if pc == Empty || (pc > 0) != byWhite {
@@ -198,6 +199,52 @@ func (p *Pos) Attacked(sq int, byWhite bool) bool {
 		}
 		if p.Attacks(from, sq) {
 			return true
+		}
+	}
+	return false
+}
+
+// Attacked reports whether sq is attacked by any piece of the given colour, by walking
+// outward from sq.
+func (p *Pos) Attacked(sq int, byWhite bool) bool {
+	sg := sign(byWhite)
+	f, r := File(sq), Rank(sq)
+	for _, d := range knightD {
+		if on(f+d[0], r+d[1]) && p.Sq[Sq(f+d[0], r+d[1])] == sg*Knight {
+			return true
+		}
+	}
+	for _, d := range kingD {
+		if on(f+d[0], r+d[1]) && p.Sq[Sq(f+d[0], r+d[1])] == sg*King {
+			return true
+		}
+	}
+	// a white pawn attacks upward, so it stands one rank below the attacked square
+	pr := r - 1
+	if !byWhite {
+		pr = r + 1
+	}
+	for _, df := range []int{-1, 1} {
+		if on(f+df, pr) && p.Sq[Sq(f+df, pr)] == sg*Pawn {
+			return true
+		}
+	}
+	for i, d := range kingD {
+		diag := d[0] != 0 && d[1] != 0
+		_ = i
+		cf, cr := f+d[0], r+d[1]
+		for on(cf, cr) {
+			pc := p.Sq[Sq(cf, cr)]
+			if pc != Empty {
+				if (pc > 0) == byWhite {
+					k := abs8(pc)
+					if k == Queen || (diag && k == Bishop) || (!diag && k == Rook) {
+						return true
+					}
+				}
+				break
+			}
+			cf, cr = cf+d[0], cr+d[1]
 		}
 	}
 	return false
